@@ -179,6 +179,8 @@ INST = {
     'fixed-overlap': dict(die=dict(width=6.0, height=2.0), split=2,   # the soft module's initial square lies partly on the fixed cell
                           mods={'F': {'fixed': True, 'rectangles': [[1.0, 1.0, 2.0, 2.0]]}, 'A': {'area': 4.0, 'center': [2.0, 1.0]},
                                 'B': {'area': 1.0, 'center': [5.0, 1.0]}}, nets=[['A', 'F'], ['A', 'B']]),
+    'stacked': dict(die=dict(width=4.0, height=2.0), grid=(1, 2),   # the initial allocation needs no refinement but is infeasible
+                    mods={'A': {'area': 4.0, 'center': [1.0, 1.0]}, 'B': {'area': 4.0, 'center': [1.0, 1.0]}}, nets=[['A', 'B']]),
     'hard': dict(die=dict(width=8.0, height=4.0), grid=(1, 2),
                  mods={'Hd': {'hard': True, 'rectangles': [[2.0, 1.0, 2.0, 2.0], [3.5, 1.0, 1.0, 1.0]]},
                        'A': {'area': 4.0, 'center': [6.0, 2.0]}}, nets=[['A', 'Hd']]),
@@ -194,7 +196,7 @@ INST = {
 
 
 def cases(tier):
-    cs = [dict(inst='soft2', max_iter=1), dict(inst='fixed', max_iter=1), dict(inst='fixed-overlap', max_iter=1),
+    cs = [dict(inst='soft2', max_iter=1), dict(inst='fixed', max_iter=1), dict(inst='fixed-overlap', max_iter=1), dict(inst='stacked', max_iter=1), dict(inst='stacked', max_iter=2),
           dict(inst='hard', max_iter=1), dict(inst='hardflip', max_iter=1)]
     if tier == 'thorough':
         cs += [dict(inst='soft2', max_iter=2), dict(inst='grid4', max_iter=1), dict(inst='blockage', max_iter=2), dict(inst='fixed', max_iter=2),
